@@ -38,12 +38,12 @@ var c20GqlFields = []gqlField{
 }
 
 type gqlPage struct {
-	keys, cursors       []string
-	hasNext, hasPrev    bool
-	start, end          string
-	total               int
-	err                 string
-	edgeNodesAgree      bool
+	keys, cursors    []string
+	hasNext, hasPrev bool
+	start, end       string
+	total            int
+	err              string
+	edgeNodesAgree   bool
 }
 
 func gqlArg(after, before *string, first, last *int) string {
@@ -154,7 +154,7 @@ func c20GqlTied(c *runCtx, repo repository.TestedRepo, n int) {
 	remote.Close()
 }
 
-func c20GqlPopulation(c *runCtx, tied bool) (*cache.MultiRepoCache, http.Handler, string) {
+func c20GqlPopulation(c *runCtx, tied, large bool) (*cache.MultiRepoCache, http.Handler, string) {
 	repo := newMock()
 	if tied {
 		repo, _ = newGoGit("c20b", false)
@@ -168,6 +168,12 @@ func c20GqlPopulation(c *runCtx, tied bool) (*cache.MultiRepoCache, http.Handler
 		}
 	}
 	nId := 5 + c.rng.intn(5)
+	nBugs := 4 + c.rng.intn(5)
+	if large {
+		// lists longer than any page size a resolver could take for granted (10, 25, 50, 100)
+		nBugs = 101 + c.rng.intn(30)
+		nId = 101 + c.rng.intn(20)
+	}
 	var idens []*cache.IdentityCache
 	for i := 0; i < nId; i++ {
 		iden, err := rc.Identities().New(fmt.Sprintf("user %d", i), fmt.Sprintf("u%d@example.com", i))
@@ -177,7 +183,6 @@ func c20GqlPopulation(c *runCtx, tied bool) (*cache.MultiRepoCache, http.Handler
 		idens = append(idens, iden)
 	}
 	rc.SetUserIdentity(idens[0])
-	nBugs := 4 + c.rng.intn(5)
 	var rich *cache.BugCache
 	for i := 0; i < nBugs; i++ {
 		au := idens[c.rng.intn(len(idens))]
@@ -199,6 +204,9 @@ func c20GqlPopulation(c *runCtx, tied bool) (*cache.MultiRepoCache, http.Handler
 		}
 	}
 	nOps := 5 + c.rng.intn(8)
+	if large {
+		nOps = 110 + c.rng.intn(20)
+	}
 	for j := 0; j < nOps; j++ {
 		au := idens[c.rng.intn(len(idens))]
 		t := int64(1600001000 + j)
@@ -228,9 +236,10 @@ func c20GqlPopulation(c *runCtx, tied bool) (*cache.MultiRepoCache, http.Handler
 }
 
 func runC20Gql(c *runCtx) {
-	pops := c.pick(2, 8)
+	pops := c.pick(3, 9)
 	for pop := 0; pop < pops; pop++ {
-		mrc, h, richId := c20GqlPopulation(c, pop%2 == 1)
+		large := pop == pops-1
+		mrc, h, richId := c20GqlPopulation(c, pop%2 == 1 && !large, large)
 		for _, f := range c20GqlFields {
 			big := intp(100000)
 			ref := gqlFetch(h, f, richId, nil, nil, big, nil)
@@ -293,6 +302,9 @@ func runC20Gql(c *runCtx) {
 				return p
 			}
 			sizes := []int{1, 2, 3, n - 1, n, n + 1}
+			if large {
+				sizes = []int{7, 10, 25, 49, 50, 51, 100, n - 1, n}
+			}
 			reps := 1
 			if !f.ordered || f.name == "allBugs" {
 				reps = 3
